@@ -43,6 +43,11 @@ def worker(k):
             own = meta.get("property", "")
             r = subprocess.run(["git", "-C", wt, "apply", os.path.abspath(f"{d}/patch.diff")], capture_output=True, text=True)
             if r.returncode != 0:
+                r = subprocess.run(["git", "-C", wt, "apply", "--3way", os.path.abspath(f"{d}/patch.diff")], capture_output=True, text=True)
+                if r.returncode == 0 and subprocess.run("grep -rl '^<<<<<<< ' --include=*.go " + wt + " | head -1", shell=True, capture_output=True, text=True).stdout.strip():
+                    r.returncode = 1; r.stderr = "3-way merge left conflict markers"
+                    subprocess.run(["git", "-C", wt, "reset", "-q", "--hard", "HEAD"])
+            if r.returncode != 0:
                 with lock:
                     results[mid] = {"applies": False}; print(mid, "PATCH DOES NOT APPLY:", r.stderr.strip()[:200], flush=True)
                 continue
